@@ -24,15 +24,15 @@
    Assembly kernels WITHOUT a closed theorem here (covered only by the
    correspondence run of harness/props/C07.py: CPU = interpreter on the
    generated program = Go model = KernSpec on every generated case):
-     add10VV, sub10VV, add10VW, sub10VW, shl10VU, shr10VU
+     add10VW, sub10VW, shl10VU, shr10VU
      (and the helper blocks decCpy, decCpyInv they tail-jump to).
-   For these six the Go side (the g_ models) is proved below for all inputs; what is
-   missing is the loop-invariant proof of the generated assembly program.
+   For these four the Go side (the g_ models) is proved below for all inputs;
+   what is missing is the loop-invariant proof of the generated assembly program.
    The digit helpers decDigits64, nlz10, trailingZeroDigits have Gallina
    models (L1/KernG.v) tied by the correspondence run only. *)
 From Coq Require Import ZArith List.
 From Dec Require Import Base.Words L1.U64 L1.X86 L1.KernSpec L1.KernG L1.KernAsm
-  L1.KernGScalar L1.KernGProofs L1.AsmProofs gen.Consts gen.Tables gen.AsmProgs.
+  L1.KernGScalar L1.KernGProofs L1.AsmProofs L1.AsmProofsVV gen.Consts gen.Tables gen.AsmProgs.
 Import ListNotations.
 Open Scope Z_scope.
 
@@ -213,6 +213,32 @@ Theorem C07_asm_addMul10VVW : forall E n z x y rs m,
                mem_eq (st_mem s') (wr m z (fst (spec_addMul10VVW (rd m z n) (rd m x n) y))).
 Proof. exact asm_addMul10VVW_correct. Qed.
 Print Assumptions C07_asm_addMul10VVW.
+
+Theorem C07_asm_add10VV : forall E n z x y rs m,
+  8 * e_msize E <= W64 ->
+  0 <= z -> z + Z.of_nat n <= e_msize E -> 0 <= x -> x + Z.of_nat n <= e_msize E ->
+  0 <= y -> y + Z.of_nat n <= e_msize E ->
+  asc_ok z x (Z.of_nat n) -> asc_ok z y (Z.of_nat n) ->
+  words_ok (rd m x n) = true -> words_ok (rd m y n) = true ->
+  exists N s', (forall f, run (N + S f) E prog_add10VV
+                             (init_state rs (slice z n ++ slice x n ++ slice y n) m) = Some s') /\
+               st_frame s' 9 = snd (spec_add10VV (rd m x n) (rd m y n)) /\
+               mem_eq (st_mem s') (wr m z (fst (spec_add10VV (rd m x n) (rd m y n)))).
+Proof. exact asm_add10VV_correct. Qed.
+Print Assumptions C07_asm_add10VV.
+
+Theorem C07_asm_sub10VV : forall E n z x y rs m,
+  8 * e_msize E <= W64 ->
+  0 <= z -> z + Z.of_nat n <= e_msize E -> 0 <= x -> x + Z.of_nat n <= e_msize E ->
+  0 <= y -> y + Z.of_nat n <= e_msize E ->
+  asc_ok z x (Z.of_nat n) -> asc_ok z y (Z.of_nat n) ->
+  words_ok (rd m x n) = true -> words_ok (rd m y n) = true ->
+  exists N s', (forall f, run (N + S f) E prog_sub10VV
+                             (init_state rs (slice z n ++ slice x n ++ slice y n) m) = Some s') /\
+               st_frame s' 9 = snd (spec_sub10VV (rd m x n) (rd m y n)) /\
+               mem_eq (st_mem s') (wr m z (fst (spec_sub10VV (rd m x n) (rd m y n)))).
+Proof. exact asm_sub10VV_correct. Qed.
+Print Assumptions C07_asm_sub10VV.
 
 (* non-vacuity: the theorems' hypotheses are satisfiable and the three
    evaluations agree on a concrete in-place call (computed in the kernel) *)
